@@ -1,0 +1,41 @@
+//go:build verif
+
+package hashesHolder
+
+// Contracts for govc (/verif), property C10. Comment-only file: no executable code, not part of the default build.
+// The checkpoint hashes holder remembers, per committed root, the node hashes that commit wrote (dirty since the last
+// checkpoint). A checkpoint traversal cuts off at hashes the holder does not list (ShouldCommit false): C10's completeness of
+// checkpoints rests on "listed by a commit since the last checkpoint ==> ShouldCommit answers true", proved here.
+
+/*@
+struct checkpointHashesHolder
+  guarded_by mutex: hashes, rootHashes, currentSize
+
+func getMapSize(hashesMap data.ModifiedHashes, hashSize uint64) (r uint64)
+  assigns nothing
+
+func (c *checkpointHashesHolder) Put(rootHash []byte, hashes data.ModifiedHashes) (full bool)
+  requires same-length-lists: len(c.hashes) == len(c.rootHashes)
+  ensures  same-length-lists: len(c.hashes) == len(c.rootHashes)
+  ensures  appended: len(c.hashes) == old(len(c.hashes)) + 1 && c.hashes[old(len(c.hashes))] == hashes && c.rootHashes[old(len(c.hashes))] == rootHash
+  ensures  earlier-commits-kept: forall k :: 0 <= k && k < old(len(c.hashes)) ==> c.hashes[k] == old(c.hashes[k]) && c.rootHashes[k] == old(c.rootHashes[k])
+  ensures  reports-full: full <==> c.currentSize >= c.maxSize
+  assigns  c.hashes, c.rootHashes, c.currentSize, elems(c.hashes), elems(c.rootHashes)
+
+func (c *checkpointHashesHolder) ShouldCommit(hash []byte) (r bool)
+  ensures  listed-hashes-are-committed: (exists k :: 0 <= k && k < len(c.hashes) && has(c.hashes[k], str(hash))) ==> r
+  ensures  unlisted-hashes-are-skipped: r ==> (exists k :: 0 <= k && k < len(c.hashes) && has(c.hashes[k], str(hash)))
+  assigns  nothing
+
+loop 1
+  invariant index: -1 <= rangeindex && rangeindex < len(c.hashes)
+  invariant not-found-so-far: forall k :: 0 <= k && k <= rangeindex ==> !has(c.hashes[k], str(hash))
+
+// a node written by a commit after the last checkpoint is not skipped by the next checkpoint
+lemma dirty-hash-is-checkpointed
+  vars c *checkpointHashesHolder, root []byte, hashes data.ModifiedHashes, h []byte
+  hyp  len(c.hashes) == len(c.rootHashes) && has(hashes, str(h))
+  call full = c.Put(root, hashes)
+  call r = c.ShouldCommit(h)
+  concl committed: r
+@*/
